@@ -43,6 +43,18 @@ class Prim(object):
         return isinstance(other, Prim) and other.name == self.name
 
 
+class CountReg(object):
+    """a \\newcount register (the generated programs assign it at the outer level only, so its value is kept as one global cell)"""
+    __slots__ = ('name', 'cell')
+
+    def __init__(self, name):
+        self.name = name
+        self.cell = [0]
+
+    def same(self, other):
+        return other is self
+
+
 class CharMeaning(object):
     """\\let\\a=<character token>"""
     __slots__ = ('tok',)
@@ -71,7 +83,7 @@ PRIMS = ['def', 'gdef', 'newcommand', 'renewcommand', 'let', 'csname', 'endcsnam
          'else', 'or', 'fi', 'newif', 'catcode', 'makeatletter', 'makeatother', 'begingroup', 'endgroup',
          'newcounter', 'setcounter', 'addtocounter', 'stepcounter', 'arabic', 'value', 'par', 'begin', 'end', 'item',
          'textbf', 'mbox', 'emph', '\\', '(', ')', 'global', 'newenvironment', 'pvendenvfinish', 'ifthenelse', 'whiledo', 'newboolean', 'setboolean', 'number',
-         'small', 'bfseries', 'itshape', 'large'] + list(IF_PRIMS)
+         'small', 'bfseries', 'itshape', 'large', 'newcount'] + list(IF_PRIMS)
 
 UNITS = {'pt': Fraction(1), 'pc': Fraction(12), 'in': Fraction(7227, 100), 'bp': Fraction(7227, 7200), 'cm': Fraction(7227, 254),
          'mm': Fraction(7227, 2540), 'dd': Fraction(1238, 1157), 'cc': Fraction(14856, 1157), 'sp': Fraction(1, 65536)}
@@ -513,6 +525,9 @@ class Interp(object):
         """internal integer quantities of the generated language: \\value{c}"""
         if t == ('cs', 'value'):
             return self.counters[self.read_name_arg()]
+        m = self.meaning_of(t) if t[0] in ('cs', 'active') else None
+        if isinstance(m, CountReg):
+            return m.cell[0]
         return None
 
     def scan_int(self):
@@ -639,6 +654,15 @@ class Interp(object):
             if isinstance(m, CharMeaning):
                 self.execute(m.tok)
                 return
+            if isinstance(m, CountReg):
+                # <register> <optional equals> <number>
+                x = self.get_x()
+                while x is not None and x[0] == SPACE:
+                    x = self.get_x()
+                if x != (OTHER, '='):
+                    self.push([x] if x is not None else [])
+                m.cell[0] = self.scan_int()
+                return
             if not isinstance(m, Prim):
                 raise OutOfModel(repr(m))
             getattr(self, 'p_' + _pyname(m.name))(t)
@@ -755,6 +779,12 @@ class Interp(object):
             self.define(key, self.meaning_of(x), glob=glob)
         else:
             self.define(key, CharMeaning(x), glob=glob)
+
+    def p_newcount(self, t):
+        name = self.next_raw()
+        if name[0] != 'cs':
+            raise TeXError('bad \\newcount')
+        self.define(name[1], CountReg(name[1]), glob=True)
 
     def p_newif(self, t):
         name = self.next_raw()
